@@ -42,6 +42,11 @@ add("C05", "fault_enumeration",
     "trusted: simulated storage under real goleveldb (completed writes survive, nothing torn), stub ConsensusHelper (signatures/VRF accepted), in-process restart through in-package drivers; one real node, peers are the delivery script",
     "deterministic simulation: block-tree delivery schedules + crash-after-every-store-write enumeration + restart")
 
+add("C06", "exploration",
+    "invariant monitor over a closed address universe while seeded value-heavy transactions (multi-target transfers failing part-way, weird amounts, fees without balance, contract create/call with value into forwarding / reverting / gas-burning / self-destructing programs, gas limits around the intrinsic cost, miner stake lock and refund escrow) are executed one per block (mostly) by the real block executor on successive committed states, at plan-chosen heights (escrow release), under seeded map order: sum(after) - sum(before) = released escrow - stake locked - self-destructed-to-self; every balance in [0, 2^256); failed transactions leave the sum unchanged. Sampling, not proof.",
+    "trusted: closed universe (targets, created contracts, beneficiaries are added as they appear), released escrow read from the escrow entries before the block, stub ConsensusHelper",
+    "deterministic simulation: value-movement histories with gas-starvation faults + conservation monitor")
+
 add("C19", "fault_enumeration",
     "seeded histories of AddGroup (valid and three kinds of invalid), remove-last-group, remove-then-different-group and restart on a booted real node; the invariant (linked list from genesis, count, height index below and above count, by-id retrieval, removed groups gone, sync successors) is checked against a slice model on the live node after every operation and - exhaustively per history - on a fresh incarnation booted from the disk image taken after every operation. Crash points inside an operation are booted too but only reported as probes (outside the property's quantifier).",
     "trusted: simulated storage under real goleveldb (completed writes survive), stub ConsensusHelper.CheckGroup, in-process restart (singletons reset through in-package drivers)",
